@@ -1238,6 +1238,171 @@ func (g *gen) genLegacyACL() ([]byte, string) {
 	return mp(structs.DeprecatedACLRequestType, map[string]any{"Op": "set", "ACL": map[string]any{"ID": "x"}}), "legacy-acl"
 }
 
+// ---------------------------------------------------------------- gateways + virtual IPs, multi-removal shapes
+
+// services that appear ONLY as linked services of gateways (no instances, no other config
+// entries): their virtual IP exists only because a terminating gateway links them, so dropping
+// the link frees it
+var extSvcs = []string{"ext1", "ext2", "ext3", "ext4", "ext5", "ext6"}
+var newSvcs = []string{"new1", "new2", "new3", "new4", "new5"}
+
+func (g *gen) subset(pool []string, min, max int) []string {
+	xs := append([]string(nil), pool...)
+	hx.Shuffle(g.r, xs)
+	n := min
+	if max > min {
+		n += g.r.Intn(max - min + 1)
+	}
+	if n > len(xs) {
+		n = len(xs)
+	}
+	return xs[:n]
+}
+
+func tgwEntry(name string, links []string) []byte {
+	e := &structs.TerminatingGatewayConfigEntry{Kind: structs.TerminatingGateway, Name: name}
+	for _, l := range links {
+		e.Services = append(e.Services, structs.LinkedService{Name: l})
+	}
+	return upsertCE(e)
+}
+
+func igwEntry(name string, svcs []string) []byte {
+	e := &structs.IngressGatewayConfigEntry{Kind: structs.IngressGateway, Name: name}
+	for i, s := range svcs {
+		e.Listeners = append(e.Listeners, structs.IngressListener{Port: 7000 + i, Protocol: "tcp", Services: []structs.IngressService{{Name: s}}})
+	}
+	return upsertCE(e)
+}
+
+func (g *gen) gatewayInstance(name string, kind structs.ServiceKind) []byte {
+	g.make("node", "n1")
+	return mp(structs.RegisterRequestType, &structs.RegisterRequest{Datacenter: "dc1", Node: "n1", Address: "10.0.0.1",
+		Service: &structs.NodeService{ID: name, Service: name, Kind: kind, Port: 8443}})
+}
+
+// vipAllocation: a command that needs a fresh auto-assigned virtual IP
+func (g *gen) vipAllocation() ([]byte, string) {
+	name := g.pick(newSvcs)
+	switch g.r.Intn(6) {
+	case 0, 1, 2:
+		return g.connectService(name), "gwvip:alloc-connect-native"
+	case 3:
+		g.make("node", "n2")
+		return mp(structs.RegisterRequestType, &structs.RegisterRequest{Datacenter: "dc1", Node: "n2", Address: "10.0.0.2",
+			Service: &structs.NodeService{ID: name + "-proxy", Service: name + "-proxy", Port: 21000, Kind: structs.ServiceKindConnectProxy,
+				Proxy: structs.ConnectProxyConfig{DestinationServiceName: name}}}), "gwvip:alloc-proxy"
+	case 4:
+		return upsertCE(&structs.ServiceConfigEntry{Kind: structs.ServiceDefaults, Name: name, Protocol: "tcp"}), "gwvip:alloc-service-defaults"
+	default:
+		return tgwEntry("tgw2", []string{name, g.pick(newSvcs)}), "gwvip:alloc-link"
+	}
+}
+
+// gatewayVIPScript: a terminating gateway links k >= 3 otherwise unreferenced services (each gets a
+// virtual IP), ONE rewrite drops several links at once (their addresses are freed inside one
+// command), then fresh virtual IPs are allocated. Which address is handed out next must not depend on
+// the order in which the dropped ones were freed.
+func (g *gen) gatewayVIPScript() ([]byte, string) {
+	gw := g.pick([]string{"tgw", "tgw", "tgw3"})
+	links := g.subset(extSvcs, 3, 6)
+	keep := g.subset(links, 0, 1)
+	if g.r.Chance(25) {
+		keep = append(keep, g.pick(newSvcs)) // drop several, add one: allocation inside the same command
+	}
+	if g.r.Chance(40) {
+		g.queue = append(g.queue, queued{g.gatewayInstance(gw, structs.ServiceKindTerminatingGateway), "gwvip:script-gateway-instance"})
+	}
+	if g.r.Chance(30) {
+		d, t := g.vipAllocation()
+		g.queue = append(g.queue, queued{d, t})
+	}
+	g.queue = append(g.queue, queued{tgwEntry(gw, keep), fmt.Sprintf("gwvip:script-drop-%d-links", len(links)-len(keep))})
+	for n := 1 + g.r.Intn(3); n > 0; n-- {
+		d, t := g.vipAllocation()
+		g.queue = append(g.queue, queued{d, t})
+	}
+	return tgwEntry(gw, links), fmt.Sprintf("gwvip:script-link-%d", len(links))
+}
+
+// meshTopologyScript: a sidecar with several upstreams re-registers with most of them gone
+// (updateMeshTopology ranges over the map of old upstreams)
+func (g *gen) meshTopologyScript() ([]byte, string) {
+	ups := g.subset([]string{"api", "db", "web", "ext1", "ext2", "new1"}, 3, 5)
+	reg := func(us []string) []byte {
+		ns := &structs.NodeService{ID: "web-proxy", Service: "web-proxy", Port: 21000, Kind: structs.ServiceKindConnectProxy,
+			Proxy: structs.ConnectProxyConfig{DestinationServiceName: "web"}}
+		for i, u := range us {
+			ns.Proxy.Upstreams = append(ns.Proxy.Upstreams, structs.Upstream{DestinationName: u, LocalBindPort: 9100 + i})
+		}
+		return mp(structs.RegisterRequestType, &structs.RegisterRequest{Datacenter: "dc1", Node: "n1", Address: "10.0.0.1", Service: ns})
+	}
+	g.make("node", "n1")
+	g.queue = append(g.queue, queued{reg(g.subset(ups, 0, 1)), "multi:proxy-drop-upstreams"})
+	if g.r.Chance(50) {
+		g.queue = append(g.queue, queued{reg(g.subset(ups, 2, 4)), "multi:proxy-readd-upstreams"})
+	}
+	return reg(ups), "multi:proxy-many-upstreams"
+}
+
+// nodeSweepScript: a node with several services and checks is deregistered in one command (usage
+// deltas, per-service index rows, session invalidation all happen inside it)
+func (g *gen) nodeSweepScript() ([]byte, string) {
+	g.make("node", "n3")
+	for i, s := range g.subset([]string{"web", "api", "db", "new1", "new2"}, 2, 4) {
+		ns := &structs.NodeService{ID: s, Service: s, Port: 8000 + i}
+		if g.r.Chance(40) {
+			ns.Connect.Native = true
+		}
+		req := &structs.RegisterRequest{Datacenter: "dc1", Node: "n3", Address: "10.0.0.3", Service: ns,
+			Check: &structs.HealthCheck{Node: "n3", CheckID: types.CheckID("svc:" + s), Name: "chk", Status: api.HealthPassing, ServiceID: s}}
+		g.queue = append(g.queue, queued{mp(structs.RegisterRequestType, req), "multi:node-sweep-register"})
+	}
+	g.queue = append(g.queue, queued{mp(structs.DeregisterRequestType, &structs.DeregisterRequest{Datacenter: "dc1", Node: "n3"}), "multi:node-sweep-deregister"})
+	d, t := g.vipAllocation()
+	g.queue = append(g.queue, queued{d, t})
+	return mp(structs.RegisterRequestType, &structs.RegisterRequest{Datacenter: "dc1", Node: "n3", Address: "10.0.0.3"}), "multi:node-sweep-node"
+}
+
+func (g *gen) genGatewayVIP() ([]byte, string) {
+	switch g.r.Intn(20) {
+	case 0, 1, 2, 3, 4:
+		return g.gatewayVIPScript()
+	case 5, 6:
+		// random rewrite of a terminating gateway: any subset, often much smaller than before
+		gw := g.pick([]string{"tgw", "tgw", "tgw2", "tgw3"})
+		links := g.subset(append(append([]string(nil), extSvcs...), "web", "new1"), 0, 5)
+		return tgwEntry(gw, links), fmt.Sprintf("gwvip:tgw-rewrite-%d", len(links))
+	case 7:
+		gw := g.pick([]string{"tgw", "tgw2", "tgw3"})
+		return mp(structs.ConfigEntryRequestType, &structs.ConfigEntryRequest{Datacenter: "dc1", Op: structs.ConfigEntryDelete,
+			Entry: &structs.TerminatingGatewayConfigEntry{Kind: structs.TerminatingGateway, Name: gw}}), "gwvip:tgw-delete"
+	case 8, 9, 10:
+		return g.vipAllocation()
+	case 11:
+		return g.gatewayInstance(g.pick([]string{"tgw", "tgw2"}), structs.ServiceKindTerminatingGateway), "gwvip:gateway-instance"
+	case 12:
+		svcs := g.subset([]string{"web", "api", "db", "ext1", "ext2", "new1"}, 0, 4)
+		return igwEntry("igw", svcs), fmt.Sprintf("gwvip:igw-rewrite-%d", len(svcs))
+	case 13:
+		return g.gatewayInstance("igw", structs.ServiceKindIngressGateway), "gwvip:ingress-instance"
+	case 14:
+		// free one address the ordinary way
+		name := g.pick(newSvcs)
+		return mp(structs.DeregisterRequestType, &structs.DeregisterRequest{Datacenter: "dc1", Node: "n1", ServiceID: name}), "gwvip:dereg-connect-native"
+	case 15:
+		name := g.pick(newSvcs)
+		return mp(structs.ConfigEntryRequestType, &structs.ConfigEntryRequest{Datacenter: "dc1", Op: structs.ConfigEntryDelete,
+			Entry: &structs.ServiceConfigEntry{Kind: structs.ServiceDefaults, Name: name}}), "gwvip:delete-service-defaults"
+	case 16, 17:
+		return g.meshTopologyScript()
+	case 18:
+		return g.nodeSweepScript()
+	default:
+		return g.genManualVIPs()
+	}
+}
+
 // ---------------------------------------------------------------- malformed / dispatch-layer inputs
 
 func (g *gen) genMalformed(valid func() ([]byte, string)) ([]byte, string) {
